@@ -225,3 +225,55 @@ mod test {
         assert_eq!(HEADER.as_ref(), buf);
     }
 }
+
+/// Thin public wrappers around the crate-private codecs, for the external verification harness.
+#[cfg(bmwill_anemo_verif)]
+pub mod verif_hooks {
+    use super::*;
+
+    pub fn frame_codec(config: &Config) -> LengthDelimitedCodec {
+        network_message_frame_codec(config)
+    }
+
+    pub async fn read_version_frame<T: AsyncRead + Unpin>(io: &mut T) -> Result<u16> {
+        super::read_version_frame(io).await.map(Version::to_u16)
+    }
+
+    pub async fn write_version_frame<T: AsyncWrite + Unpin>(io: &mut T) -> Result<()> {
+        super::write_version_frame(io, Version::V1).await
+    }
+
+    pub async fn read_request<T: AsyncRead + Unpin>(
+        config: &Config,
+        io: T,
+    ) -> Result<Request<Bytes>> {
+        let mut framed = FramedRead::new(io, network_message_frame_codec(config));
+        super::read_request(&mut framed).await
+    }
+
+    pub async fn read_response<T: AsyncRead + Unpin>(
+        config: &Config,
+        io: T,
+    ) -> Result<Response<Bytes>> {
+        let mut framed = FramedRead::new(io, network_message_frame_codec(config));
+        super::read_response(&mut framed).await
+    }
+
+    pub async fn write_request<T: AsyncWrite + Unpin>(
+        config: &Config,
+        io: T,
+        request: Request<Bytes>,
+    ) -> Result<()> {
+        let mut framed = FramedWrite::new(io, network_message_frame_codec(config));
+        super::write_request(&mut framed, request).await
+    }
+
+    pub async fn write_response<T: AsyncWrite + Unpin>(
+        config: &Config,
+        io: T,
+        response: Response<Bytes>,
+    ) -> Result<()> {
+        let mut framed = FramedWrite::new(io, network_message_frame_codec(config));
+        super::write_response(&mut framed, response).await
+    }
+}
